@@ -246,9 +246,9 @@ func (xr *Reader) Seek(offset int64, whence int) (int64, error) {
 	// As an optimization if the new position is within the current chunk,
 	// then just adjust the discard value.
 	discard := pos - xr.offset
-	remain := xr.chk.rsize - xr.zr.OutputOffset
+	remain := xr.chk.rsize - xr.zr.OutputOffset - xr.discard
 	if discard > 0 && remain > 0 && discard < remain {
-		xr.offset, xr.discard = pos, discard
+		xr.offset, xr.discard = pos, xr.discard+discard
 		return pos, nil
 	}
 
